@@ -78,6 +78,9 @@ func run(c *vf.Ctx) {
 				c.Cap("deadline reached while exploring " + cmd.Name)
 			}
 		}
+		w.andxSlots()
+		w.fullDataBlock()
+		w.assignAfterDecode()
 		atomic.AddInt64(&rejected, w.rejected)
 		mu.Lock()
 		if w.sample != nil && len(samples) < 200 {
@@ -96,6 +99,206 @@ func run(c *vf.Ctx) {
 	c.Set("assignments_rejected_as_inconsistent", rejected)
 	c.Set("deviation_bound_completed", map[string]int{"zero_base": c.Pick(3, 4), "full_base": c.Pick(2, 3)})
 	tally.Publish()
+}
+
+// assignAfterDecode: a structure that came out of Unmarshal is a structure like any other - assigning one
+// field of it and encoding must give the bytes a FRESH structure with the same field values gives (the state
+// reached by decoding vs the state reached by construction: a differential oracle without an expected
+// value). Catches whatever a decoded field keeps besides its value (a cached encoding, a stale length).
+// Evaluated only from bases that decode cleanly and re-encode identically, so the known decoder findings
+// cannot reach it. Besides the assigned field, the fields the relations derive from it (counts, offsets,
+// alignment pads) are taken from the fresh structure too.
+func (w *worker) assignAfterDecode() {
+	cmd := w.cmd
+	for _, full := range []bool{false, true} {
+		a0 := cmd.Zero(w.lat)
+		if full {
+			a0 = cmd.FullAssign(w.lat)
+		}
+		B, err := a0.Build()
+		if err != nil {
+			continue
+		}
+		pristine, _ := a0.Build()
+		b, merr, pan, _ := smbgen.Marshal(B)
+		if merr != nil || pan {
+			continue
+		}
+		D := cmd.New()
+		if uerr, up, _ := smbgen.Unmarshal(D, b); uerr != nil || up {
+			continue
+		}
+		clean := true
+		for _, f := range cmd.Fields {
+			clean = clean && cmd.FieldEqual(f, smbgen.Field(pristine, f), smbgen.Field(D, f))
+		}
+		if !clean {
+			continue
+		}
+		chk := cmd.New()
+		copyFields(cmd, chk, D)
+		if b2, e2, p2, _ := smbgen.Marshal(chk); e2 != nil || p2 || !bytes.Equal(b2, b) {
+			continue
+		}
+		for _, f := range cmd.Fields {
+			if !f.Free() {
+				continue
+			}
+			for k := 1; k <= len(w.lat[f.Pos]) && k <= 3; k++ {
+				a1 := a0.With(f.Pos, k)
+				T, err := a1.Build()
+				if err != nil {
+					continue
+				}
+				T2, _ := a1.Build()
+				bT, eT, pT, _ := smbgen.Marshal(T2)
+				if eT != nil || pT {
+					continue
+				}
+				// a fresh decode for every case: Marshal may write into the structure it encodes
+				Dk := cmd.New()
+				if uerr, up, _ := smbgen.Unmarshal(Dk, append([]byte{}, b...)); uerr != nil || up {
+					continue
+				}
+				F := cmd.New()
+				copyFields(cmd, F, Dk)
+				var assigned []string
+				for _, g := range cmd.Fields {
+					if !cmd.FieldEqual(g, smbgen.Field(pristine, g), smbgen.Field(T, g)) {
+						assignValue(g, smbgen.Field(F, g), smbgen.Field(T, g))
+						assigned = append(assigned, g.Name)
+					}
+				}
+				if len(assigned) == 0 {
+					continue
+				}
+				bF, eF, pF, where := smbgen.Marshal(F)
+				w.c.Case([]byte(cmd.Name), []byte("assign-after-decode "+a1.Label()))
+				w.check(w.key("field:"+f.Name+"/assigned-after-decode-encodes-like-a-fresh-structure"), eF == nil && !pF && bytes.Equal(bF, bT), func() string {
+					return fmt.Sprintf("%s: decode of the encoding of {%s} (%s), then %s assigned the values of {%s}: Marshal = %s (err=%v panic=%v %s); a fresh structure {%s} encodes as %s",
+						cmd.Name, a0.Label(), vf.HexS(b), strings.Join(assigned, ", "), a1.Label(), vf.HexS(bF), eF, pF, where, a1.Label(), vf.HexS(bT))
+				})
+			}
+		}
+	}
+}
+
+// assignValue gives dst the VALUE of src the way a caller does who edits a decoded structure: the members
+// that carry the value are assigned, whatever else the type keeps next to them (the marshalling scratch
+// string inside a resume key, the Length of a string - which Marshal derives from the buffer) stays as decoded.
+func assignValue(f *refsmb.Field, dst, src reflect.Value) {
+	switch f.Kind {
+	case refsmb.KResumeKey:
+		for _, n := range []string{"Reserved", "ServerState", "ClientState"} {
+			dst.FieldByName(n).Set(src.FieldByName(n))
+		}
+	case refsmb.KString:
+		dst.FieldByName("BufferFormat").Set(src.FieldByName("BufferFormat"))
+		dst.FieldByName("Buffer").Set(src.FieldByName("Buffer"))
+	case refsmb.KOEMString:
+		d, s := dst.FieldByName("SMB_STRING"), src.FieldByName("SMB_STRING")
+		d.FieldByName("BufferFormat").Set(s.FieldByName("BufferFormat"))
+		d.FieldByName("Buffer").Set(s.FieldByName("Buffer"))
+	default:
+		dst.Set(src)
+	}
+}
+
+// fullDataBlock: ByteCount is a USHORT, so a data block of exactly 65535 (and 65534) bytes is the largest a
+// structure can carry. For every raw byte buffer of the data block the buffer is sized so that the library's
+// own data block comes out at exactly that size (found by measuring the library's encoding of a shorter
+// one); Marshal must accept it and frame it with that ByteCount. (Decoding such blocks is covered, where
+// the structure decodes at all, by the ordinary lattice; here only the boundary of the encoder is probed.)
+func (w *worker) fullDataBlock() {
+	cmd := w.cmd
+	for _, f := range cmd.Fields {
+		if f.Kind != refsmb.KBytes || f.Section != refsmb.SecData || !f.Free() {
+			continue
+		}
+		build := func(n int) (command_interface.CommandInterface, string) {
+			lat := make([][]refsmb.Choice, len(w.lat))
+			copy(lat, w.lat)
+			lat[f.Pos] = append(append([]refsmb.Choice{}, w.lat[f.Pos]...), refsmb.Choice{Label: fmt.Sprintf("bytes[%d]", n), Set: func(v reflect.Value) {
+				b := make([]byte, n)
+				for i := range b {
+					b[i] = byte(0x41 + i%23)
+				}
+				v.SetBytes(b)
+			}})
+			a := cmd.Zero(lat).With(f.Pos, len(lat[f.Pos]))
+			x, err := a.Build()
+			if err != nil {
+				return nil, ""
+			}
+			return x, a.Label()
+		}
+		probe, _ := build(1000)
+		if probe == nil {
+			continue
+		}
+		pb, perr, pp, _ := smbgen.Marshal(probe)
+		pf, ferr := refsmb.ParseFrame(pb)
+		if perr != nil || pp || ferr != nil || pf.BC < 1000 {
+			continue
+		}
+		overhead := pf.BC - 1000
+		for _, target := range []int{65534, 65535} {
+			x, label := build(target - overhead)
+			if x == nil {
+				continue // a count field of the structure cannot express the length
+			}
+			b, merr, panicked, where := smbgen.Marshal(x)
+			fr, ferr := refsmb.ParseFrame(b)
+			w.c.Case([]byte(cmd.Name), []byte(label))
+			if ferr == nil && merr == nil && fr.BC != target && len(fr.Data) != target {
+				continue // padding moved with the length: not the size aimed at, nothing to judge
+			}
+			w.check(w.key(fmt.Sprintf("marshal/data-block-of-%d-bytes-accepted-and-framed", target)), merr == nil && !panicked && ferr == nil && fr.BC == target && len(fr.Data) == target && fr.Extra == 0, func() string {
+				return fmt.Sprintf("%s{%s}.Marshal(): a data block of %d bytes fits ByteCount (USHORT); got err=%v panic=%v(%s), framed ByteCount=%d with %d bytes following (%v)", cmd.Name, label, target, merr, panicked, where, fr.BC, len(fr.Data), ferr)
+			})
+		}
+	}
+}
+
+// andxSlots: the AndX block of an AndX command is three more fields (command, reserved, offset) in front
+// of the declared ones; each value must reach its own slot whatever the other two hold - in particular an
+// offset next to "no further command" (0xFF). The byte order of the offset is C05's business.
+func (w *worker) andxSlots() {
+	cmd := w.cmd
+	if !cmd.AndX {
+		return
+	}
+	for _, full := range []bool{false, true} {
+		a := cmd.Zero(w.lat)
+		if full {
+			a = cmd.FullAssign(w.lat)
+		}
+		for _, ax := range []andx.AndX{{AndXCommand: 0x75, AndXReserved: 0, AndXOffset: 0x0102}, {AndXCommand: 0x2E, AndXReserved: 0x01, AndXOffset: 0xFEFD},
+			{AndXCommand: 0xFF, AndXReserved: 0xFE, AndXOffset: 0}, {AndXCommand: 0xFF, AndXReserved: 0x01, AndXOffset: 0x0203}, {AndXCommand: 0x00, AndXReserved: 0x00, AndXOffset: 0xFFFF}} {
+			x, err := a.Build()
+			if err != nil {
+				continue
+			}
+			cp := ax
+			x.SetAndX(&cp)
+			b, merr, panicked, _ := smbgen.Marshal(x)
+			if merr != nil || panicked {
+				continue // reported by the marshal obligations
+			}
+			fr, ferr := refsmb.ParseFrame(b)
+			if ferr != nil || len(fr.Words) < 4 {
+				continue // reported by the width obligations
+			}
+			label := fmt.Sprintf("%s andx={%#02x,%#02x,%#04x}", a.Label(), byte(ax.AndXCommand), ax.AndXReserved, ax.AndXOffset)
+			w.c.Case([]byte(cmd.Name), []byte(label))
+			got := fr.Words[:4]
+			le := []byte{byte(ax.AndXCommand), ax.AndXReserved, byte(ax.AndXOffset), byte(ax.AndXOffset >> 8)}
+			be := []byte{byte(ax.AndXCommand), ax.AndXReserved, byte(ax.AndXOffset >> 8), byte(ax.AndXOffset)}
+			w.check(w.key("field:andx/slot-carries-the-value"), bytes.Equal(got, le) || bytes.Equal(got, be), func() string {
+				return fmt.Sprintf("%s{%s}.Marshal(): the AndX block (first two parameter words) is %x, the values set are command %#02x, reserved %#02x, offset %#04x; bytes %s", cmd.Name, label, got, byte(ax.AndXCommand), ax.AndXReserved, ax.AndXOffset, vf.HexS(b))
+			})
+		}
+	}
 }
 
 type worker struct {
@@ -177,7 +380,14 @@ func (w *worker) eval(a *refsmb.Assign, r *explore.Run) {
 	// ---- buffer layout: the same field values held in consecutive sub-slices of ONE caller buffer (spare
 	// capacity of each running into the next) must encode to the same bytes and stay untouched
 	if n, _ := smbgen.NumDev(a); n <= 1 {
-		if y, err := a.Build(); err == nil && smbgen.Rehome(y) >= 2 {
+		for _, rotated := range []bool{false, true} {
+			y, err := a.Build()
+			if err != nil {
+				break
+			}
+			if moved := smbgen.RehomeOrder(y, rotated); moved < 2 || rotated && moved < 3 {
+				continue
+			}
 			pristine, _ := a.Build()
 			b2, e2, p2, _ := smbgen.Marshal(y)
 			same := true
@@ -187,7 +397,8 @@ func (w *worker) eval(a *refsmb.Assign, r *explore.Run) {
 				}
 			}
 			w.check(w.key("marshal/independent-of-caller-buffer-layout"), !p2 && e2 == nil && bytes.Equal(b2, b) && same, func() string {
-				return fmt.Sprintf("%s{%s} with its byte fields held back to back in one caller buffer: Marshal() = %s (err %v), with independent buffers %s; field values unchanged afterwards: %v", cmd.Name, label, vf.HexS(b2), e2, vf.HexS(b), same)
+				return fmt.Sprintf("%s{%s} with its byte fields held back to back in one caller buffer (%s): Marshal() = %s (err %v), with independent buffers %s; field values unchanged afterwards: %v", cmd.Name, label,
+					map[bool]string{false: "declared order", true: "first field first, the others in reverse order"}[rotated], vf.HexS(b2), e2, vf.HexS(b), same)
 			})
 		}
 	}
@@ -272,6 +483,16 @@ func (w *worker) eval(a *refsmb.Assign, r *explore.Run) {
 		}
 	}
 
+	// ---- whatever was decoded without error is a structure of the library's own making: it must at least
+	// be encodable again (equality of the bytes is judged below, and only when the fields came back right)
+	if uerr == nil && mismatch {
+		dd := cmd.New()
+		copyFields(cmd, dd, d)
+		_, rerr, rpanic, _ := smbgen.Marshal(dd)
+		w.check(w.key("decoded-structure-can-be-encoded-again"), rerr == nil && !rpanic, func() string {
+			return fmt.Sprintf("%s{%s}: Marshal = %s; Unmarshal into a fresh structure succeeds; Marshal of the decoded fields (copied into a fresh structure) fails: %v", cmd.Name, label, vf.HexS(b), rerr)
+		})
+	}
 	// ---- reencode (only meaningful when the decoded structure equals the original)
 	if uerr == nil && !mismatch {
 		b2, rerr, _, _ := smbgen.Marshal(d)
